@@ -434,6 +434,9 @@ def decide(pid, pcfg, cfg, tier, seed, workdir, evidence):
     my_clauses = [c for c in meta["clauses"] if pid in c["tags"]]
     dep_clauses = [c for c in meta["clauses"] if ("~" + pid) in c["tags"]]
     my_fns = [f for f in meta["functions"] if pid in f.get("props", []) or any(c["fn"] == f["item"] and c["src"] == f["src"] for c in my_clauses)]
+    # functions that carry only clauses STRONGER than the property (dependency clauses): not obligations of the property,
+    # but when such a function falls outside the verified subset the property is decided by the bounded sweep as well
+    dep_fn_keys = set((c["src"], c["fn"]) for c in dep_clauses)
     my_lemmas = {n: l for n, l in lemmas.items() if pid in l["props"]}
     spec_fail = [f for f in failures if f["spec_only"]]
     if spec_fail:
@@ -575,7 +578,7 @@ def decide(pid, pcfg, cfg, tier, seed, workdir, evidence):
     if undec_mine:
         raise Undecided("resource limit in " + str(undec_mine[0]["fn"]) + ": " + undec_mine[0]["message"])
     # ---- bounded stand-in for functions left outside the verified subset
-    ext_mine = [x for x in externalised if (x["src"], x["item"]) in my_fn_keys]
+    ext_mine = [x for x in externalised if (x["src"], x["item"]) in my_fn_keys or (x["src"], x["item"]) in dep_fn_keys]
     if ext_mine:
         import finder
         found = finder.search(pid)
